@@ -209,6 +209,9 @@ namespace CQ
 
 def out (c : CQ) (env : Env) (ops : List TOp) (r : QRes) : QOut CQ := ⟨c, env, ops, r⟩
 
+/-- ghost: `n` more qubitList entries that no unit module knows -/
+def leak (c : CQ) (n : Nat) : CQ := { c with leaked := c.leaked + n }
+
 /-- `cmd_new` (executioner.py:132-149) -/
 def cmdNew (c : CQ) (k : Int) : Option (CQ × Nat) :=
   match c.node.new with
@@ -233,26 +236,29 @@ def initApp (c : CQ) (maxq : Nat) (env : Env) : QOut CQ :=
   | none => out { c with um := some (List.replicate maxq none) } env [] (.ok none)
 
 /-- `_clear_qubits` (executor.py:331-339) with `_clear_phys_qubit_in_memory`
-(executioner.py:806-809): for every mapped address, destructive measurement + `remove_qubit_id` -/
-def stopLoop (c : CQ) : List Nat → Env → List TOp → QOut CQ
-  | [], env, ops => c.out env ops (.ok none)
-  | p :: ps, env, ops =>
-    if p ∉ c.used then c.out env ops .err            -- set.remove: KeyError
+(executioner.py:806-809): for every mapped address (paired with the outcome it will report),
+destructive measurement + `remove_qubit_id`.  Returns the state, the operations and `false`
+if an exception aborted the handler (the qubits not cleared yet then stay in qubitList). -/
+def stopLoop (c : CQ) : List (Nat × Bool) → List TOp → CQ × List TOp × Bool
+  | [], ops => (c, ops, true)
+  | (p, o) :: ps, ops =>
+    if p ∉ c.used then (c, ops, false)                                  -- set.remove: KeyError
     else
       let c1 := { c with used := c.used.erase p }
       match aGet c1.qlist (p : Int) with
-      | none => c1.out env ops .err                   -- UnknownQubitError
+      | none => (c1, ops, false)                                         -- UnknownQubitError
       | some t =>
-        match env.outs with
-        | [] => c1.out env ops .envShort
-        | o :: rest =>
-          stopLoop { c1 with node := c1.node.drop t, qlist := aDel c1.qlist (p : Int) } ps
-            { env with outs := rest } (ops ++ [.meas t false o])
+        stopLoop { c1 with node := c1.node.drop t, qlist := aDel c1.qlist (p : Int) } ps (ops ++ [.meas t false o])
 
 def stopApp (c : CQ) (env : Env) : QOut CQ :=
   match c.um with
   | none => c.out env [] .unmodelled
-  | some um => stopLoop { c with um := none } (um.filterMap id) env []
+  | some um =>
+    let ps := um.filterMap id
+    if env.outs.length < ps.length then c.out env [] .envShort           -- not enough reported outcomes: no step
+    else
+      let r := stopLoop { c with um := none } (ps.zip env.outs) []
+      r.1.out { env with outs := env.outs.drop ps.length } r.2.1 (if r.2.2 then .ok none else .err)
 
 /-- a peer's `netqasm_send_epr_half` succeeded: the half sits in the receive queue -/
 def arrive (c : CQ) (sock sender : Int) (env : Env) : QOut CQ :=
@@ -319,20 +325,18 @@ def free (c : CQ) (v : Int) (env : Env) : QOut CQ :=
     | .bad => c.out env [] .err
     | .empty _ => c.out env [] .err               -- RuntimeError: not allocated
     | .full i p =>
-      let c0 := { c with um := some (um.set i none) }
-      if p ∉ c0.used then c0.out env [] .err
-      else
-        let c1 := { c0 with used := c0.used.erase p }
-        match aGet c1.qlist (p : Int) with
-        | none => c1.out env [] .err
-        | some t =>
-          match env.outs with
-          | [] => c1.out env [] .envShort
-          | o :: rest =>
+      match env.outs with
+      | [] => c.out env [] .envShort
+      | o :: rest =>
+        let c0 := { c with um := some (um.set i none) }
+        if p ∉ c0.used then c0.out env [] .err
+        else
+          let c1 := { c0 with used := c0.used.erase p }
+          match aGet c1.qlist (p : Int) with
+          | none => c1.out env [] .err
+          | some t =>
             out { c1 with node := c1.node.drop t, qlist := aDel c1.qlist (p : Int) }
               { env with outs := rest } [.meas t false o] (.ok none)
-
-def leak (c : CQ) (n : Nat) : CQ := { c with leaked := c.leaked + n }
 
 /-- `_handle_epr_ok_k_response` (executor.py:1620-1651): map the pair's virtual
 address to physical id `q`.  `none` = an exception, `some none` = postponed -/
@@ -360,7 +364,7 @@ def eprCreate (c : CQ) (remoteOk : Bool) (v : Option Int) (env : Env) : QOut CQ 
       | some (c3, t2) =>
         let ops := [TOp.new t1, .new t2, .gate1 .H t1, .gate2 .cnot t1 t2]
         match env.sends with
-        | [] => c3.out env ops .envShort
+        | [] => (c3.leak 2).out env ops .envShort
         | okS :: rest =>
           let env' := { env with sends := rest }
           if !okS then (c3.leak 2).out env' (ops ++ [.send t2 false]) .err     -- F13: receiver full
@@ -425,17 +429,19 @@ def initApp (a : AQ) (maxq : Nat) (env : Env) : QOut AQ :=
   | some _ => a.out env [] .unmodelled
   | none => out { a with aum := some (List.replicate maxq none) } env [] (.ok none)
 
-def stopLoop (a : AQ) : List Nat → Env → List TOp → QOut AQ
-  | [], env, ops => a.out env ops (.ok none)
-  | t :: ts, env, ops =>
-    match env.outs with
-    | [] => a.out env ops .envShort
-    | o :: rest => stopLoop { a with node := a.node.drop t } ts { env with outs := rest } (ops ++ [.meas t false o])
+def stopLoop (a : AQ) : List (Nat × Bool) → List TOp → AQ × List TOp
+  | [], ops => (a, ops)
+  | (t, o) :: ts, ops => stopLoop { a with node := a.node.drop t } ts (ops ++ [.meas t false o])
 
 def stopApp (a : AQ) (env : Env) : QOut AQ :=
   match a.aum with
   | none => a.out env [] .unmodelled
-  | some um => stopLoop { a with aum := none } (um.filterMap id) env []
+  | some um =>
+    let ts := um.filterMap id
+    if env.outs.length < ts.length then a.out env [] .envShort
+    else
+      let r := stopLoop { a with aum := none } (ts.zip env.outs) []
+      r.1.out { env with outs := env.outs.drop ts.length } r.2 (.ok none)
 
 def alloc (a : AQ) (v : Int) (env : Env) : QOut AQ :=
   match a.aum with
@@ -487,7 +493,7 @@ def free (a : AQ) (v : Int) (env : Env) : QOut AQ :=
     | .empty _ => a.out env [] .err
     | .full i t =>
       match env.outs with
-      | [] => out { a with aum := some (um.set i none) } env [] .envShort
+      | [] => a.out env [] .envShort
       | o :: rest =>
         out { aum := some (um.set i none), node := a.node.drop t } { env with outs := rest }
           [.meas t false o] (.ok none)
@@ -580,15 +586,18 @@ def nCreateArgs : Nat := 22
 /-- entries of one link-layer OK record (`OK_FIELDS_K`) -/
 def okFields : Nat := 10
 
+/-- the virtual address of pair `i`: entry `i` of the address array (`none`: no array / no entry / undefined) -/
+def pairAddr (qarr : Option (List (Option Int))) (i : Nat) : Option Int :=
+  match qarr with
+  | none => none
+  | some l => (l[i]?).join
+
 /-- the pairs of one `create_epr` / `recv_epr`, one backend request each, followed by `_store_ent_info` -/
 def eprLoop {σ : Type} (B : Backend σ) (mk : Option Int → QReq) (qarr : Option (List (Option Int))) (entA : Int) :
     Nat → Nat → St σ → Env → List TOp → StepOut σ
   | 0, _, s, env, ops => ⟨s, env, [], ops, .next⟩
   | n + 1, i, s, env, ops =>
-    let v : Option Int := match qarr with
-      | none => none
-      | some l => (l[i]?).join
-    let o := B.q s.q (mk v) env
+    let o := B.q s.q (mk (pairAddr qarr i)) env
     match o.res with
     | .ok _ =>
       match o.env.infos with
